@@ -611,7 +611,8 @@ def compare(run: Run, refl: Any, module: Any) -> tuple[list[dict[str, Any]], dic
 		kids = [(s2, r) for s2, r in kids if r is not None]
 		desc = [(run.instr.sites[j], real_at(j)) for j in descendants_of(root)]
 		desc = [(s2, r) for s2, r in desc if r is not None]
-		kid_heads = [head(r) for _, r in kids]
+		# (user class names are generated: the key names the kind, not the class)
+		kid_heads = ['<class>' if head(r) in run.class_names else head(r) for _, r in kids]
 		if isinstance(n, (ast.List, ast.Tuple, ast.Dict, ast.Set, ast.ListComp, ast.DictComp)):
 			kid_heads = sorted(set(kid_heads))
 		kindname = 'Decl' if site['kind'] == 'decl' else type(n).__name__
